@@ -90,6 +90,11 @@ fn request(u: &unimock::Unimock, which: OwnKind, x: u8, hold: &mut Vec<Box<dyn s
             }
             _ => (0, false),
         },
+        OwnKind::Unit => {
+            // nothing to hold: the response itself is what is single-use (id 114 by convention)
+            u.own_unit(x);
+            (114, true)
+        }
         OwnKind::OptMulti => match u.own_opt_multi(x) {
             Some(Err(t)) => {
                 let r = (t.id, t.intact());
@@ -169,6 +174,7 @@ fn kind_of(sp: &Special) -> Option<(OwnKind, u32, bool)> {
         Special::OwnDeepPoll { id } => Some((OwnKind::DeepPoll, *id, true)),
         Special::OwnPollMulti { id, .. } => Some((OwnKind::PollMulti, *id, false)),
         Special::OwnOptMulti { id, .. } => Some((OwnKind::OptMulti, *id, false)),
+        Special::OwnUnit { id } => Some((OwnKind::Unit, *id, true)),
         _ => None,
     }
 }
@@ -192,6 +198,7 @@ pub fn gen_c12(base_seed: u64, batch: &str, run: u64, rng: &mut Rng) -> Scenario
         Special::OwnDeepPoll { id: 111 },
         Special::OwnPollMulti { quant: *rng.pick(&[Quant::N(2), Quant::N(3), Quant::AtLeast(1), Quant::Unq]), id: 112 },
         Special::OwnOptMulti { quant: *rng.pick(&[Quant::N(2), Quant::N(3), Quant::AtLeast(1), Quant::Unq]), id: 113 },
+        Special::OwnUnit { id: 114 },
     ];
     // OwnMulti through some_call needs an explicit multi-use quantifier
     if let Special::OwnMulti { quant, each_call, .. } = &mut pool[1] {
